@@ -691,7 +691,88 @@ def w_alias_chains(job):
     return sh.result()
 
 
+# ---------------------------------------------------------------------------
+# two shapes reported by an independent reader of the code (wave 5) whose answers depend on the request history on the unchanged
+# tree; both are listed findings with a classifier of their own, everything else these modules show is a violation
+
+def receiver_alias_module(n_alias, attrs_on):
+    """an instance, aliases of it obtained from a method returning self, attributes assigned through some of the aliases"""
+    lines = ['class B(object):', '    def __init__(self):', '        self.a = 1', '', '    def set(self):', '        return self', '', '', 'b = B()']
+    prev = 'b'
+    for i in range(n_alias):
+        lines.append('c%d = %s.set()' % (i, prev))
+        prev = 'c%d' % i
+    for k, i in enumerate(attrs_on):
+        lines.append('%s.extra%d = %d' % ('b' if i < 0 else 'c%d' % i, k, k))
+    return '\n'.join(lines) + '\n'
+
+
+STAR_CYCLE = {'aa': 'from bb import *\nxa = 1\n', 'bb': 'from aa import *\nyb = 2\n', 'cc': 'from aa import *\nzc = 3\n'}
+
+
+def run_listed_shape(case):
+    """case: ('alias', n_alias, attrs_on, order) or ('cycle', order) -> (signature, case, detail) or None"""
+    from supp.project import Project
+    from supp import assistant
+    root = tempfile.mkdtemp(prefix='c04s_')
+    try:
+        if case[0] == 'alias':
+            _, n_alias, attrs_on, order = case
+            with open(os.path.join(root, 'rm.py'), 'w') as f:
+                f.write(receiver_alias_module(n_alias, attrs_on))
+            exprs = ['rm.b'] + ['rm.c%d' % i for i in range(n_alias)]
+            listed = {'extra%d' % k for k in range(len(attrs_on))}
+            tag = 'receiver-alias-attribute-table'
+        else:
+            _, order = case
+            for name, src in STAR_CYCLE.items():
+                with open(os.path.join(root, name + '.py'), 'w') as f:
+                    f.write(src)
+            exprs = ['aa', 'bb', 'cc']
+            listed = {'xa', 'yb'}
+            tag = 'star-import-cycle-first-module'
+
+        def ask(project, expr):
+            src = 'import %s\n%s.' % (expr.split('.')[0], expr)
+            with project.check_changes():
+                r = assistant.assist(project, src, (2, len(expr) + 1), os.path.join(root, 'buffer.py'))
+            return sorted(x for x in r[1] if not x.startswith('__'))
+        project = Project([root])
+        for step, i in enumerate(order):
+            expr = exprs[i % len(exprs)]
+            got = ask(project, expr)
+            want = ask(Project([root]), expr)
+            if got != want:
+                diff = set(got) ^ set(want)
+                sig = 'history-dependent-reply:assist' + (':' + tag if diff <= listed else ':listed-shape-module')
+                return (sig, {'kind': 'listed-shape', 'case': [list(c) if isinstance(c, (list, tuple)) else c for c in case]},
+                        'step %d: %s. replies %s on the long-lived project, %s on a new one' % (step + 1, expr, got, want))
+    finally:
+        shutil.rmtree(root, ignore_errors=True)
+    return None
+
+
+def w_listed_shapes(job):
+    import itertools
+    sh = Shard()
+    cases = []
+    for n_alias in (1, 2, 3):
+        for attrs_on in ([n_alias - 1], [0], [-1, n_alias - 1], [0, n_alias - 1]):
+            for order in itertools.permutations(range(n_alias + 1), min(3, n_alias + 1)):
+                cases.append(('alias', n_alias, attrs_on, list(order) + list(order)))
+    for order in itertools.product(range(3), repeat=3):
+        cases.append(('cycle', list(order) + [0, 1, 2]))
+    for case in cases[job::4]:
+        bad = run_listed_shape(case)
+        sh.case(case, True, {'listed_shape': case[0], 'order': case[-1]})
+        sh.count('listed-shape-histories')
+        if bad and bad[0] not in [v['signature'] for v in sh.violations]:
+            sh.violation(*bad)        # classified centrally against the listed findings (KNOWN below)
+    return sh.result()
+
+
 def run(run):
+    run.pmap(w_listed_shapes, [0, 1, 2, 3])
     run.pmap(w_alias_chains, [(i, core.derive_seed(run.seed, 'c04a', i), run.pick(30, 500)) for i in range(4)])
     n = run.pick(25, 600)
     run.pmap(w_programs, [(i, core.derive_seed(run.seed, 'c04p', i), n) for i in range(16)])
@@ -704,6 +785,10 @@ def replay(case):
     out = []
     if case.get('kind') == 'program':
         probs, _ = check_module(case['src'], suppview.filename_for(case.get('package', False)), random.Random(case.get('oseed', 0)))
+    elif case.get('kind') == 'listed-shape':
+        c = case['case']
+        bad = run_listed_shape(tuple(c))
+        probs = [(bad[0], bad[2])] if bad else []
     elif case.get('kind') == 'alias-chains':
         bad = run_alias_case(tuple(case['args']))
         probs = [(bad[0], bad[2])] if bad else []
@@ -741,6 +826,8 @@ def replay(case):
     return out
 
 
-KNOWN_SIGS = {'C04-instance-attribute-table-depends-on-history': lambda sig: sig.endswith(':instance-attribute-table')}
+KNOWN_SIGS = {'C04-instance-attribute-table-depends-on-history': lambda sig: sig.endswith(':instance-attribute-table'),
+              'C04-receiver-alias-attribute-table': lambda sig: sig.endswith(':receiver-alias-attribute-table'),
+              'C04-star-import-cycle-first-module': lambda sig: sig.endswith(':star-import-cycle-first-module')}
 _listed = {e['id'] for e in core.load_known(PROPERTY) if e.get('status') == 'finding'}
 KNOWN = {fid: (lambda v, p=pred: p(v['signature'])) for fid, pred in KNOWN_SIGS.items() if fid in _listed}
